@@ -86,7 +86,7 @@ def main():
         return [mf for mf in ctx.monitor_failures if ":" not in mf["clause"] or mf["clause"].startswith(prop + ":")]
     if broken and not relevant_failures() and can_run_impl:
         ctx.widen = True
-        for k in range(1, 6):
+        for k in range(1, 1 + int(os.environ.get("VERIF_WIDEN", "5"))):
             ctx.seed = seed + 7919 * k
             for suite in spec["suites"]:
                 suite(ctx, can_run_model)
